@@ -65,7 +65,23 @@ var textKeys = []string{
 
 var keyEscaper = strings.NewReplacer("\\", "\\\\", "\"", "\\\"", "\n", "\\n", "\t", "\\t")
 
-func quoteKey(k string) string { return `"` + keyEscaper.Replace(k) + `"` }
+// quoteKey spells a field name as a string literal; characters that have no short escape and are
+// invisible (C0 controls, DEL, C1 controls, separators, BOM: the literal family's escKeys) are written
+// as \xHH / \uHHHH escapes, the way a programmer has to write them.
+func quoteKey(k string) string {
+	var b strings.Builder
+	for _, c := range keyEscaper.Replace(k) {
+		switch {
+		case c < 0x20 || c == 0x7f:
+			fmt.Fprintf(&b, `\x%02x`, c)
+		case c >= 0x80 && c < 0xa0, c == 0x2028, c == 0x2029, c == 0xfeff:
+			fmt.Fprintf(&b, `\u%04x`, c)
+		default:
+			b.WriteRune(c)
+		}
+	}
+	return `"` + b.String() + `"`
+}
 
 // keySrc renders a field name the way a programmer may write it in a literal or a type.
 func (g *gen) keySrc(f ofield) string {
@@ -92,6 +108,9 @@ func (g *gen) newShape(depth int) *shape {
 			f.key = reservedKeys[g.r.Intn(len(reservedKeys))]
 		default:
 			f.key = textKeys[g.r.Intn(len(textKeys))]
+			if g.lit && g.r.Chance(1, 2) {
+				f.key = escKeys[g.r.Intn(len(escKeys))]
+			}
 		}
 		if used[f.key] {
 			continue
